@@ -3,9 +3,9 @@
 patch=$1; prop=$2; shift 2
 scratch=$(mktemp -d /dev/shm/mut.XXXX)
 trap 'rm -rf $scratch' EXIT
-rsync -a --exclude .git /repo/ $scratch/
+rsync -a --exclude .git ${REPO_SRC:-/repo}/ $scratch/
 (cd $scratch && patch -s -p1 < $patch) || { echo "PATCH-FAILED $patch"; exit 3; }
-out=$(/verif/bin/govc -repo $scratch -prop "$prop" -replays $scratch/replays -known /nonexistent "$@" 2>&1)
+out=$(${GOVC_BIN:-/verif/bin/govc} -specs ${GOVC_SPECS:-/verif/specs} -repo $scratch -prop "$prop" -replays $scratch/replays -known /nonexistent "$@" 2>&1)
 rc=$?
 viol=$(echo "$out" | grep -c '^VIOLATION')
 if [ $rc -eq 1 ]; then echo "CAUGHT $(basename $patch) prop=$prop violations=$viol: $(echo "$out" | grep '^VIOLATION' | sed 's/.*obligation=//' | tr '\n' ' ' | cut -c1-300)";
